@@ -12,6 +12,7 @@
 -/
 import OrbProofs.C14
 import OrbProofs.C14FillRing
+import Mathlib.Data.Rat.Floor
 
 namespace Orb.TileCover
 open Orb Orb.Tile
@@ -332,6 +333,279 @@ theorem polygon_mono (zoom fuel : Nat) (set : List Tile) (rings : List (List (Pt
       intro t ht'
       exact List.mem_append_right _ (M t ht')
 
+/-! ### F1 stand-alone, and `ErrUnevenIntersections` -/
+
+/-- **F1.**  After the extremum filter, every row of the trace of a closed ring (first vertex = last,
+    non-negative tile-space coordinates, vertices anywhere — also on tile edges and corners) has an even
+    number of entries. -/
+theorem ring_trace_rows_even (zoom fuel : Nat) (set : List Tile) (pts : List (Pt K))
+    (hnn : ∀ p ∈ pts, 0 ≤ p.x ∧ 0 ≤ p.y) (hclosed : pts.head? = pts.getLast?) (set' : List Tile)
+    (ring : Option (List (ℕ × ℕ)))
+    (h : line (opsK K) zoom fuel set pts (some []) = .ok (set', ring)) (y : ℕ) :
+    ((ringIntersections (ring.getD [])).filter (fun e => e.2 = y)).length % 2 = 0 := by
+  have hq : ((0 : ℕ) : K) < (1 / 2 : K) ∧ (1 / 2 : K) < ((0 : ℕ) : K) + 1 := by
+    constructor <;> norm_num
+  exact (ring_intersections_spec zoom fuel 0 0 (⟨1 / 2, 1 / 2⟩ : Pt K) hq hq set pts hnn hclosed set' ring h).2.2.1 y
+
+/-- a list all of whose rows have an even number of entries has even length -/
+theorem even_length_of_rows_even : ∀ (n : ℕ) (L : List (ℕ × ℕ)), L.length ≤ n →
+    (∀ y, (L.filter (fun e => e.2 = y)).length % 2 = 0) → L.length % 2 = 0 := by
+  intro n
+  induction n with
+  | zero =>
+    intro L hL _
+    have : L = [] := List.length_eq_zero_iff.mp (by omega)
+    rw [this]; rfl
+  | succ n ih =>
+    intro L hL hrows
+    cases L with
+    | nil => rfl
+    | cons a t =>
+      set L' := (a :: t).filter (fun e => !decide (e.2 = a.2)) with hL'
+      have hsplit : ((a :: t).filter (fun e => decide (e.2 = a.2))).length + L'.length = (a :: t).length := by
+        rw [hL']
+        exact (List.length_eq_length_filter_add _).symm
+      have hpos : 0 < ((a :: t).filter (fun e => decide (e.2 = a.2))).length := by
+        simp
+      have hlen : L'.length ≤ n := by
+        simp only [List.length_cons] at hsplit hL
+        omega
+      have hrows' : ∀ y, (L'.filter (fun e => e.2 = y)).length % 2 = 0 := by
+        intro y
+        rw [hL', List.filter_filter]
+        by_cases hy : y = a.2
+        · subst hy
+          have : ((a :: t).filter (fun e => decide (e.2 = a.2) && !decide (e.2 = a.2))) = [] := by
+            rw [List.filter_eq_nil_iff]
+            intro e _
+            simp
+          rw [this]; rfl
+        · have : (fun e : ℕ × ℕ => decide (e.2 = y) && !decide (e.2 = a.2)) = (fun e => decide (e.2 = y)) := by
+            funext e
+            by_cases he : e.2 = y
+            · have : ¬ e.2 = a.2 := by rw [he]; exact hy
+              simp [he, hy]
+            · simp [he]
+          rw [this]
+          exact hrows y
+      have := ih L' hlen hrows'
+      have := hrows a.2
+      omega
+
+/-- For closed rings (exact arithmetic, non-negative coordinates) `polygon` never returns
+    `ErrUnevenIntersections`. -/
+theorem polygon_closed_not_uneven (zoom fuel : Nat) (set : List Tile) (rings : List (List (Pt K)))
+    (hr : ∀ r ∈ rings, r.head? = r.getLast? ∧ ∀ p ∈ r, 0 ≤ p.x ∧ 0 ≤ p.y) :
+    polygon (opsK K) zoom fuel set rings ≠ .err .unevenIntersections := by
+  unfold polygon
+  cases ht : traceRings (opsK K) zoom fuel set [] rings with
+  | err e =>
+    -- the only error of the ring loop is the model's fuel artefact
+    simp only
+    intro he
+    have he' : e = CoverErr.unevenIntersections := by injection he
+    subst he'
+    exfalso
+    clear hr
+    have : ∀ (rings : List (List (Pt K))) (set : List Tile) (inter : List (ℕ × ℕ)),
+        traceRings (opsK K) zoom fuel set inter rings ≠ .err .unevenIntersections := by
+      intro rings
+      induction rings with
+      | nil => intro set inter h; simp [traceRings] at h
+      | cons r rs ih =>
+        intro set inter h
+        simp only [traceRings] at h
+        cases hline : line (opsK K) zoom fuel set r (some []) with
+        | err e =>
+          rw [hline] at h
+          simp only [Res.err.injEq] at h
+          subst h
+          unfold line at hline
+          cases hl : lineSegs (opsK K) zoom fuel ⟨set, some [], -1, -1, 0, 0⟩ r with
+          | none => rw [hl] at hline; simp at hline
+          | some s =>
+            rw [hl] at hline
+            simp only at hline
+            split at hline
+            · cases hline
+            · split at hline
+              · cases hline
+              · split at hline <;> cases hline
+        | panic w => rw [hline] at h; simp at h
+        | ok res =>
+          rw [hline] at h
+          exact ih _ _ h
+    exact this rings set [] ht
+  | panic w => simp
+  | ok res =>
+    obtain ⟨set', inter⟩ := res
+    simp only
+    have hq : ((0 : ℕ) : K) < (1 / 2 : K) ∧ (1 / 2 : K) < ((0 : ℕ) : K) + 1 := by
+      constructor <;> norm_num
+    obtain ⟨_, extra, E1, _, E3, _⟩ :=
+      traceRings_spec zoom fuel 0 0 (⟨1 / 2, 1 / 2⟩ : Pt K) hq hq rings set [] set' inter hr ht
+    simp only [List.nil_append] at E1
+    subst E1
+    have hev := even_length_of_rows_even inter.length inter le_rfl E3
+    split
+    · rename_i hne
+      simp [hev] at hne
+    · simp
+
+/-- … and with enough fuel for the longest edge (the fuel is a model artefact) it returns a cover. -/
+theorem polygon_closed_ok (zoom fuel : Nat) (set : List Tile) (rings : List (List (Pt K)))
+    (hr : ∀ r ∈ rings, r.head? = r.getLast? ∧ ∀ p ∈ r, 0 ≤ p.x ∧ 0 ≤ p.y)
+    (hf : ∀ r ∈ rings, ∀ e ∈ r.zip (r.drop 1),
+      (⌊e.2.x⌋ - ⌊e.1.x⌋).natAbs + (⌊e.2.y⌋ - ⌊e.1.y⌋).natAbs + 2 ≤ fuel) :
+    ∃ S, polygon (opsK K) zoom fuel set rings = .ok S := by
+  have hne := polygon_closed_not_uneven zoom fuel set rings hr
+  have hT : ∀ (rings : List (List (Pt K))) (set : List Tile) (inter : List (ℕ × ℕ)),
+      (∀ r ∈ rings, ∀ e ∈ r.zip (r.drop 1),
+        (⌊e.2.x⌋ - ⌊e.1.x⌋).natAbs + (⌊e.2.y⌋ - ⌊e.1.y⌋).natAbs + 2 ≤ fuel) →
+      ∃ res, traceRings (opsK K) zoom fuel set inter rings = .ok res := by
+    intro rings
+    induction rings with
+    | nil => intro set inter _; exact ⟨_, rfl⟩
+    | cons r rs ih =>
+      intro set inter hf
+      obtain ⟨s, hs⟩ := Option.isSome_iff_exists.mp
+        (lineSegs_term zoom fuel r ⟨set, some [], -1, -1, 0, 0⟩ (hf r List.mem_cons_self))
+      have hline : ∃ res, line (opsK K) zoom fuel set r (some []) = .ok res := by
+        simp only [line, hs]
+        cases hr : s.ring with
+        | none => exact ⟨_, rfl⟩
+        | some r' =>
+          simp only []
+          cases hh : r'.head? with
+          | none => exact ⟨_, rfl⟩
+          | some first =>
+            simp only []
+            split <;> exact ⟨_, rfl⟩
+      obtain ⟨res, hres⟩ := hline
+      obtain ⟨set1, ring⟩ := res
+      simp only [traceRings, hres]
+      exact ih _ _ (fun r' hr' => hf r' (List.mem_cons_of_mem _ hr'))
+  obtain ⟨res, hres⟩ := hT rings set [] hf
+  obtain ⟨set', inter⟩ := res
+  unfold polygon at hne ⊢
+  rw [hres] at hne ⊢
+  simp only at hne ⊢
+  split
+  · rename_i hc
+    exfalso
+    apply hne
+    simp [hc]
+  · exact ⟨_, rfl⟩
+
+/-! ### holes, multi-polygons, `tilecover.Geometry` -/
+
+/-- inside the outer ring and outside every hole (each by the even-odd rule) is inside by the even-odd
+    rule over all rings -/
+theorem xParRings_outer_holes (q : Pt K) (outer : List (Pt K)) (holes : List (List (Pt K)))
+    (ho : xPar q outer = true) (hh : ∀ r ∈ holes, xPar q r = false) :
+    xParRings q (outer :: holes) = true := by
+  have : xParRings q holes = false := by
+    induction holes with
+    | nil => rfl
+    | cons r rs ih =>
+      rw [xParRings, hh r List.mem_cons_self, ih (fun r' hr' => hh r' (List.mem_cons_of_mem _ hr'))]
+      rfl
+  rw [xParRings, ho, this]; rfl
+
+/-- **F4 (multi-polygons).**  The cover of a multi-polygon contains, for each member polygon, every tile
+    whose open square contains a point inside that polygon (even-odd rule over its rings). -/
+theorem multiPolygon_interior_cover (zoom fuel : Nat) :
+    ∀ (polys : List (List (List (Pt K)))) (set S : List Tile),
+      (∀ pg ∈ polys, ∀ r ∈ pg, r.head? = r.getLast? ∧ ∀ p ∈ r, 0 ≤ p.x ∧ 0 ≤ p.y) →
+      multiPolygon (opsK K) zoom fuel set polys = .ok S →
+      (∀ t ∈ set, t ∈ S) ∧
+      ∀ pg ∈ polys, ∀ (i j : ℕ) (q : Pt K), (i : K) < q.x ∧ q.x < (i : K) + 1 →
+        (j : K) < q.y ∧ q.y < (j : K) + 1 → xParRings q pg = true → (⟨i, j, zoom⟩ : Tile) ∈ S := by
+  intro polys
+  induction polys with
+  | nil =>
+    intro set S _ h
+    simp only [multiPolygon, Res.ok.injEq] at h
+    subst h
+    exact ⟨fun t ht => ht, by simp⟩
+  | cons pg rest ih =>
+    intro set S hr h
+    simp only [multiPolygon] at h
+    cases hp : polygon (opsK K) zoom fuel set pg with
+    | err e => rw [hp] at h; simp at h
+    | panic w => rw [hp] at h; simp at h
+    | ok S1 =>
+      rw [hp] at h
+      simp only at h
+      have hr0 := hr pg List.mem_cons_self
+      obtain ⟨M, I⟩ := ih S1 S (fun pg' hpg' => hr pg' (List.mem_cons_of_mem _ hpg')) h
+      refine ⟨fun t ht => M t (polygon_mono zoom fuel set pg S1 hr0 hp t ht), ?_⟩
+      intro pg' hpg' i j q hqx hqy hodd
+      rcases List.mem_cons.mp hpg' with he | he
+      · subst he
+        exact M _ (polygon_interior_cover zoom fuel set pg' S1 hr0 hp i j q hqx hqy hodd)
+      · exact I pg' he i j q hqx hqy hodd
+
+theorem closed_map (frac : Pt K → Pt K) (r : List (Pt K)) (h : r.head? = r.getLast?) :
+    (r.map frac).head? = (r.map frac).getLast? := by
+  rw [List.head?_map, List.getLast?_map, h]
+
+/-- `tilecover.Geometry` on a polygon (`frac` = `maptile.Fraction(·, zoom)`, opaque). -/
+theorem cover_polygon_interior (frac : Pt K → Pt K) (zoom fuel : Nat) (rs : List (List (Pt K)))
+    (S : List Tile)
+    (hr : ∀ r ∈ rs, r.head? = r.getLast? ∧ ∀ p ∈ r, 0 ≤ (frac p).x ∧ 0 ≤ (frac p).y)
+    (h : cover (opsK K) frac zoom fuel (.polygon rs) = .ok S) (i j : ℕ) (q : Pt K)
+    (hqx : (i : K) < q.x ∧ q.x < (i : K) + 1) (hqy : (j : K) < q.y ∧ q.y < (j : K) + 1)
+    (hodd : xParRings q (rs.map (·.map frac)) = true) : (⟨i, j, zoom⟩ : Tile) ∈ S := by
+  simp only [cover] at h
+  refine polygon_interior_cover zoom fuel [] _ S ?_ h i j q hqx hqy hodd
+  intro r hr'
+  obtain ⟨r0, hr0, rfl⟩ := List.mem_map.mp hr'
+  refine ⟨closed_map frac r0 (hr r0 hr0).1, ?_⟩
+  intro p hp
+  obtain ⟨p0, hp0, rfl⟩ := List.mem_map.mp hp
+  exact (hr r0 hr0).2 p0 hp0
+
+/-- `tilecover.Geometry` on a ring. -/
+theorem cover_ring_interior (frac : Pt K → Pt K) (zoom fuel : Nat) (ps : List (Pt K)) (S : List Tile)
+    (hc : ps.head? = ps.getLast?) (hnn : ∀ p ∈ ps, 0 ≤ (frac p).x ∧ 0 ≤ (frac p).y)
+    (h : cover (opsK K) frac zoom fuel (.ring ps) = .ok S) (i j : ℕ) (q : Pt K)
+    (hqx : (i : K) < q.x ∧ q.x < (i : K) + 1) (hqy : (j : K) < q.y ∧ q.y < (j : K) + 1)
+    (hodd : xPar q (ps.map frac) = true) : (⟨i, j, zoom⟩ : Tile) ∈ S := by
+  simp only [cover] at h
+  split at h
+  · rename_i he
+    have : ps = [] := by simpa using he
+    subst this
+    simp [xPar] at hodd
+  · refine polygon_interior_cover zoom fuel [] [ps.map frac] S ?_ h i j q hqx hqy ?_
+    · intro r hr'
+      rw [List.mem_singleton.mp hr']
+      refine ⟨closed_map frac ps hc, ?_⟩
+      intro p hp
+      obtain ⟨p0, hp0, rfl⟩ := List.mem_map.mp hp
+      exact hnn p0 hp0
+    · rw [xParRings, xParRings, hodd]; rfl
+
+/-- `tilecover.Geometry` on a multi-polygon. -/
+theorem cover_multiPolygon_interior (frac : Pt K → Pt K) (zoom fuel : Nat)
+    (mp : List (List (List (Pt K)))) (S : List Tile)
+    (hr : ∀ pg ∈ mp, ∀ r ∈ pg, r.head? = r.getLast? ∧ ∀ p ∈ r, 0 ≤ (frac p).x ∧ 0 ≤ (frac p).y)
+    (h : cover (opsK K) frac zoom fuel (.multiPolygon mp) = .ok S) (pg : List (List (Pt K)))
+    (hpg : pg ∈ mp) (i j : ℕ) (q : Pt K)
+    (hqx : (i : K) < q.x ∧ q.x < (i : K) + 1) (hqy : (j : K) < q.y ∧ q.y < (j : K) + 1)
+    (hodd : xParRings q (pg.map (·.map frac)) = true) : (⟨i, j, zoom⟩ : Tile) ∈ S := by
+  simp only [cover] at h
+  have H := multiPolygon_interior_cover zoom fuel (mp.map (·.map (·.map frac))) [] S ?_ h
+  · exact H.2 _ (List.mem_map.mpr ⟨pg, hpg, rfl⟩) i j q hqx hqy hodd
+  · intro pg' hpg' r hr'
+    obtain ⟨pg0, hpg0, rfl⟩ := List.mem_map.mp hpg'
+    obtain ⟨r0, hr0, rfl⟩ := List.mem_map.mp hr'
+    refine ⟨closed_map frac r0 (hr pg0 hpg0 r0 hr0).1, ?_⟩
+    intro p hp
+    obtain ⟨p0, hp0, rfl⟩ := List.mem_map.mp hp
+    exact (hr pg0 hpg0 r0 hr0).2 p0 hp0
+
 /-! ### the crossing count of `polygon_interior_full` -/
 
 theorem xPar_eq_count (q : Pt K) (r : List (Pt K)) :
@@ -378,5 +652,28 @@ theorem polygon_interior_full_holds : polygon_interior_full := by
   apply polygon_interior_cover zoom fuel [] rings S hr h i j q ⟨h1, h2⟩ ⟨h3, h4⟩
   rw [← xParRings_eq_count]
   simpa using hodd
+
+/-- Non-vacuity: the square ring `(0,0) (4,0) (4,4) (0,4) (0,0)` (vertices ON tile corners) at zoom 3 has a
+    cover, and `polygon_interior_cover` puts the tile `(2, 2)` — which no edge touches — into it. -/
+example : ∃ S, polygon (opsK ℚ) 3 20 []
+      [[(⟨0, 0⟩ : Pt ℚ), ⟨4, 0⟩, ⟨4, 4⟩, ⟨0, 4⟩, ⟨0, 0⟩]] = .ok S ∧ (⟨2, 2, 3⟩ : Tile) ∈ S := by
+  have hr : ∀ r ∈ [[(⟨0, 0⟩ : Pt ℚ), ⟨4, 0⟩, ⟨4, 4⟩, ⟨0, 4⟩, ⟨0, 0⟩]],
+      r.head? = r.getLast? ∧ ∀ p ∈ r, 0 ≤ p.x ∧ 0 ≤ p.y := by
+    intro r hr
+    rw [List.mem_singleton.mp hr]
+    refine ⟨rfl, ?_⟩
+    intro p hp
+    simp only [List.mem_cons, List.not_mem_nil, or_false] at hp
+    rcases hp with rfl | rfl | rfl | rfl | rfl <;> norm_num
+  obtain ⟨S, hS⟩ := polygon_closed_ok 3 20 [] _ hr (by
+    intro r hr e he
+    rw [List.mem_singleton.mp hr] at he
+    simp only [List.drop_succ_cons, List.drop_zero, List.zip_cons_cons, List.zip_nil_right,
+      List.mem_cons, List.not_mem_nil, or_false] at he
+    rcases he with rfl | rfl | rfl | rfl <;> norm_num)
+  refine ⟨S, hS, ?_⟩
+  refine polygon_interior_cover 3 20 [] _ S hr hS 2 2 ⟨5/2, 5/2⟩ (by norm_num) (by norm_num) ?_
+  simp only [xParRings, xPar, xCross]
+  norm_num
 
 end Orb.TileCover
